@@ -1,6 +1,7 @@
 """Property checks C01, C02, C06, C10, C14 (decomposition, merging, replacement checking)."""
 from __future__ import annotations
 import copy, itertools, math, random
+import numpy as np
 import wire as W, ops as O, oracle as R, gen as G
 from framework import Run, batch_tie
 
@@ -282,6 +283,15 @@ def merge_cases(run: Run):
             for r_ in ("Rx", "Ry", "Rz"):
                 if rng.random() < run.n(0.25, 1.0):
                     cases.append({"c": {"nq": 1, "nb": 1, "stmts": [W.w_stmt(getattr(_dg0, a_)(0)), W.w_stmt(getattr(_dg0, r_)(0, _F0(th)))]}, "band": False, "ex": False})
+    # small but not negligible rotations (2e-7 .. 1e-3, well outside the 1e-7 identity band): alone, in front of and behind a
+    # two-qubit gate, next to another gate - they must neither be dropped nor carried across the barrier
+    for nm_ in ("Rx", "Ry", "Rz"):
+        for th in (3e-7, 1e-6, 1e-5, -1e-5, 1e-4, -4e-4, 1e-3):
+            sm = lambda q_: W.w_stmt(getattr(_dg0, nm_)(q_, _F0(th)))
+            cx = W.w_stmt(_dg0.CNOT(0, 1))
+            for st_ in ([sm(1)], [sm(1), cx, W.w_stmt(_dg0.X(1))], [W.w_stmt(_dg0.H(1)), cx, sm(1)], [sm(0), cx, sm(0)], [sm(1), W.w_stmt(_dg0.H(1))]):
+                if run.quick() and rng.random() < 0.5: continue
+                cases.append({"c": {"nq": 2, "nb": 1, "stmts": st_}, "band": False, "ex": False})
     # a rotation directly followed by its exact inverse (cos^2 + sin^2 may evaluate to 1.0000000000000002)
     from opensquirrel.ir import BlochSphereRotation as _B1
     import opensquirrel.default_gates as _dg1
@@ -394,8 +404,43 @@ def split_segments(trace):
         else: out.append([s]); out.append([])
     return out
 
+def merge_histories(run: Run):
+    """C14 on ONE circuit object with other passes in between: every merge call reaches the normal form again"""
+    rng = random.Random(run.seed * 977 + 5); g = G.Gen(rng)
+    import opensquirrel.default_gates as dg
+    from opensquirrel.decomposer.aba_decomposer import ZYZDecomposer
+    for _ in range(run.n(20, 200)):
+        n = rng.randint(2, 3)
+        c = g.circuit(n=n, kinds="named", allow_band=False, length=rng.randint(3, 8))
+        c["stmts"] = [s for s in c["stmts"] if s["k"] != "comment"] + [W.w_stmt(dg.CNOT(0, 1)), W.w_stmt(dg.H(1))]
+        circ = W.os_circuit(c)
+        hist = []
+        try:
+            circ.merge_single_qubit_gates(); hist.append("merge")
+            for step in range(rng.randint(1, 3)):
+                k = rng.randrange(3)
+                if k == 0: circ.replace(dg.CNOT, lambda c_, t_: [dg.H(t_), dg.CZ(c_, t_), dg.H(t_)]); hist.append("replace CNOT")
+                elif k == 1: circ.replace(dg.CZ, lambda c_, t_: [dg.H(t_), dg.CNOT(c_, t_), dg.H(t_)]); hist.append("replace CZ")
+                else: circ.decompose(ZYZDecomposer()); hist.append("decompose ZYZ")
+                before = W.w_circuit(circ)
+                circ.merge_single_qubit_gates(); hist.append("merge")
+                b = W.w_circuit(circ)
+                run.count({"history": hist[:], "c": c}, tag="history")
+                bad = None
+                for q in sorted({x for s in b["stmts"] for x in R.stmt_qubits(s)}):
+                    tb = per_qubit_trace(b["stmts"], q)
+                    if any(is_bsr_stmt(s1) and is_bsr_stmt(s2) for s1, s2 in zip(tb, tb[1:])): bad = f"qubit {q} carries two adjacent single-qubit gates"
+                if any(is_bsr_stmt(s) and is_identity_gate(s["g"]) for s in b["stmts"]): bad = "an identity gate is left"
+                if bad: run.violation(f"after {hist} on one circuit object: {bad}", {"c": c, "history": hist}); break
+                ok, dist, why = R.equiv_stmts(before["stmts"], b["stmts"], TOL_OP * max(1, len(before["stmts"])))
+                if not ok: run.violation(f"after {hist}: the merge changed the operation ({why}, {dist:.3g})", {"c": c, "history": hist}); break
+        except Exception as ex:
+            run.violation(f"history {hist} raised {O.err_name(ex)}", {"c": c, "history": hist})
+
 def check_C02(run: Run): run_merge(run, True, False)
-def check_C14(run: Run): run_merge(run, False, True)
+def check_C14(run: Run):
+    run_merge(run, False, True)
+    merge_histories(run)
 
 # ----------------------------------------------------------------------------------------- C06
 def exact_decompositions(g: G.Gen):
@@ -467,6 +512,15 @@ def check_C06(run: Run):
     for gate, repl in pairs:
         for label, cand, exp in perturb(g, gate, repl):
             cases.append({"g": gate, "cand": cand, "label": label, "exp": exp})
+    # a multiple of the right matrix is not "equal up to a global phase" unless the factor has modulus one
+    import cmath
+    import opensquirrel.default_gates as _dg6
+    from opensquirrel.ir import MatrixGate as _MG6
+    Mc = np.array([[1, 0, 0, 0], [0, 1, 0, 0], [0, 0, 0, 1], [0, 0, 1, 0]], complex); Mz = np.diag([1, 1, 1, -1]).astype(complex)
+    Ug = g.unitary(2)
+    for gate_, mat_, ops_ in ((_dg6.CNOT(0, 1), Mc, [0, 1]), (_dg6.CZ(1, 0), Mz, [1, 0]), (_MG6(Ug, [0, 1]), Ug, [0, 1])):
+        for f_, exp_ in ((2.0, False), (0.5, False), (1e3, False), (3j, False), (1 + 1e-3, False), (-1.0, True), (cmath.exp(0.7j), True), (1 + 1e-12, True)):
+            cases.append({"g": W.w_stmt(gate_), "cand": [W.w_stmt(_MG6(f_ * mat_, ops_))], "label": f"matrix times {f_:.4g}", "exp": exp_})
     def cmp_chk(case, r, m):
         if m is None: return None
         if r["err"] != m["err"]:
@@ -482,7 +536,7 @@ def check_C06(run: Run):
         on_qubits = all(set(R.gate_ops(s["g"])) <= qs for s in c["cand"])
         ok, dist, _ = R.equiv_stmts([c["g"]], c["cand"], TOL_OP) if on_qubits else (False, float("inf"), "")
         if accepted and not on_qubits: run.violation(f"accepted a replacement touching other qubits ({c['label']})", c)
-        elif accepted and dist > 6e-5: run.violation(f"accepted a replacement at operator distance {dist:.3g} ({c['label']})", c)
+        elif accepted and dist > 6e-5: run.violation(f"accepted a replacement at operator distance {dist:.3g} ({c['label']})", c, fkey="C06-scalar-multiple" if c["label"].startswith("matrix times") else None)
         elif (not accepted) and on_qubits and dist < 1e-9: run.violation(f"rejected an exact replacement ({c['label']}, distance {dist:.3g}): {r['err']}", c)
         if not accepted and r["err"] != "ValueError": run.violation(f"rejection raised {r['err']} instead of ValueError ({c['label']})", c)
     # --- replace(): only the requested name is rewritten, spliced in place
